@@ -89,6 +89,13 @@ def gen_workload(rng, n_lines, ncols=None, malformed=0.0, opts=None):
     used = set()
     label_name = 'label' if rng.random() < 0.6 else _name(rng, used)
     names = [_name(rng, used) for _ in range(ncols - 1)]
+    if opts.get('rel_names') and len(names) >= 2 and rng.random() < opts['rel_names']:
+        k = rng.randrange(1, 1 + max(1, len(names) // 3))
+        for i in rng.sample(range(len(names)), k):
+            nm = names[i] + ' AND_REL ' + rng.choice(names)
+            if nm not in used:
+                used.add(nm)
+                names[i] = nm
     lpos = rng.randrange(0, ncols)
     names.insert(lpos, label_name)
     nclass = rng.choice([2, 2, 2, 3, 5])
@@ -103,7 +110,7 @@ def gen_workload(rng, n_lines, ncols=None, malformed=0.0, opts=None):
             cols.append(list(cols[-1]))
             kinds.append('duplicate')
         else:
-            c, k = gen_column(rng, n_lines, label, opts.get('kind'))
+            c, k = gen_column(rng, n_lines, label, opts.get('kind') if not isinstance(opts.get('kind'), list) else rng.choice(opts['kind']))
             cols.append(c)
             kinds.append(k)
     lines = []
